@@ -92,6 +92,39 @@ def sig(obj):
     return hashlib.blake2b(repr(obj).encode(), digest_size=8).hexdigest()
 
 
+# ---------------------------------------------------------------------------------------------------------------
+# environment modes: the same cases are run in differently configured interpreters (a shard = one interpreter)
+# ---------------------------------------------------------------------------------------------------------------
+MODE_PLAN = ['debuglog', 'optimised', 'default', 'warnings']        # shard s of a run with seed k gets MODE_PLAN[(s + k) % 4]
+MODE_FLAGS = {'default': [], 'debuglog': [], 'optimised': ['-O'],
+              # warnings that code is expected to heed are raised as errors (not the import-time noise of third-party packages)
+              'warnings': ['-Werror::DeprecationWarning', '-Werror::UserWarning', '-Werror::RuntimeWarning', '-Werror::FutureWarning',
+                           '-Werror::SyntaxWarning']}
+
+
+def mode_of_shard(shard, seed):
+    forced = os.environ.get('VERIF_FORCE_MODE')
+    return forced if forced in MODE_FLAGS else MODE_PLAN[(shard + seed) % len(MODE_PLAN)]
+
+
+def current_mode():
+    return os.environ.get('VERIF_MODE', 'default')
+
+
+def apply_mode_in_process():
+    """Called at the start of a shard / replay process: what cannot be set on the command line."""
+    if current_mode() == 'debuglog':
+        import logging
+        root = logging.getLogger()
+        root.setLevel(logging.DEBUG)          # an application that runs with debug logging switched on (records go nowhere)
+        root.addHandler(logging.NullHandler())
+
+
+def child_python():
+    """Interpreter command for child processes spawned by monitors: same flags as the current shard."""
+    return [sys.executable, '-B'] + MODE_FLAGS.get(current_mode(), [])
+
+
 class Ctx:
     """What a monitor writes its observations into (one per shard)."""
 
@@ -107,6 +140,7 @@ class Ctx:
         self.notes = []
         self.cases_run = 0
         self.replaying = False
+        self.mode = current_mode()
 
     # --- counting -----------------------------------------------------------------------------------------
     def ev(self, n=1):
@@ -146,14 +180,15 @@ class Ctx:
         """Runs one case; an oracle divergence (CaseViolation) or any unexpected exception is a violation
         attributed to exactly this case, so that --replay can re-execute it alone."""
         self.cases_run += 1
+        self.count('cases_in_mode_' + self.mode)
         try:
             fn(self, case, *args)
         except CaseViolation as v:
-            self.violation(case, v.what, **v.detail)
+            self.violation(case, v.what, interpreter_mode=self.mode, **v.detail)
         except Inconclusive:
             raise
         except Exception as e:  # noqa - the oracle predicted a normal return
-            self.violation(case, f'unexpected {type(e).__name__}: {e}', traceback=traceback.format_exc()[-3000:])
+            self.violation(case, f'unexpected {type(e).__name__}: {e}', interpreter_mode=self.mode, traceback=traceback.format_exc()[-3000:])
 
     def dump(self):
         return {'evaluations': self.evaluations, 'counters': self.counters, 'nontrivial': sorted(self.nontrivial),
@@ -227,6 +262,7 @@ def shard_main(prop, tier, seed, shard, nshards, out):
     t0 = time.time()
     res = {'ok': False}
     try:
+        apply_mode_in_process()
         root = load_tree()
         mon = get_monitor(prop)
         ctx = Ctx(prop, tier, seed, shard, nshards)
@@ -255,6 +291,12 @@ def replay_main(prop, path):
     if rec.get('property') != prop:
         print(f'replay file is for {rec.get("property")}, not {prop}')
         return EXIT_INCONCLUSIVE
+    want = rec.get('mode', 'default')
+    if want != current_mode() and want in MODE_FLAGS:
+        # the case was observed in a differently configured interpreter: replay it in the same configuration
+        cmd = [sys.executable, '-B'] + MODE_FLAGS[want] + [os.path.join(HERE, 'vlib', 'main.py'), prop, '--replay', path]
+        return subprocess.run(cmd, env=dict(os.environ, VERIF_MODE=want, PYTHONHASHSEED='0'), cwd=HERE).returncode
+    apply_mode_in_process()
     load_tree()
     mon = get_monitor(prop)
     ctx = Ctx(prop, rec.get('tier', 'quick'), int(rec.get('seed', 0)), 0, 1)
@@ -296,9 +338,10 @@ def parent_main(prop, tier, seed):
     procs = []
     for s in range(nshards):
         out = os.path.join(tmpdir, f'shard{s}.json')
-        cmd = [sys.executable, '-B', os.path.join(HERE, 'vlib', 'main.py'), prop, '--tier', tier,
-               '--_shard', f'{s}/{nshards}', '--_out', out]
-        env_s = dict(env, VERIF_SEED=str(seed))
+        mode = mode_of_shard(s, seed)
+        cmd = [sys.executable, '-B'] + MODE_FLAGS[mode] + [os.path.join(HERE, 'vlib', 'main.py'), prop, '--tier', tier,
+                                                           '--_shard', f'{s}/{nshards}', '--_out', out]
+        env_s = dict(env, VERIF_SEED=str(seed), VERIF_MODE=mode)
         procs.append((s, out, subprocess.Popen(cmd, env=env_s, cwd=HERE)))
     merged = {'evaluations': 0, 'counters': {}, 'nontrivial': set(), 'states': set(), 'samples': [],
               'violations': [], 'findings': {}, 'reach': {}, 'notes': [], 'cases_run': 0}
@@ -374,6 +417,7 @@ def parent_main(prop, tier, seed):
         replay_path = os.path.join(rdir, f'{prop}-{tier}-seed{seed}-{sig(v["case"])}.json')
         with open(replay_path, 'w') as f:
             json.dump({'property': prop, 'tier': tier, 'seed': seed, 'case': v['case'], 'what': v['what'],
+                       'mode': (v.get('detail') or {}).get('interpreter_mode', 'default'),
                        'detail': v['detail'], 'tree': tree_identity()}, f, indent=1)
 
     cov = {
